@@ -20,6 +20,7 @@ type finding struct {
 	Prop   string `json:"prop"`   // for monitors: owning property
 	Clause string `json:"clause"` // monitor clause or diverging projection
 	Tags   string `json:"tags"`   // token tags of the step
+	Grid   bool   `json:"grid"`   // the case ran on the grid buffer
 	Detail string `json:"detail"`
 }
 
